@@ -24,6 +24,13 @@ class ApiWorld:
         self.host = host
         self.console = C.SimConsole(net, self.inst, knobs, host=host)
         self.at = H.connect(gen) if host is None else H.connect(gen, host)
+        if H.POLL_DEFAULT:
+            handle0 = self.console._handle
+
+            def handle(conn, f, cmd):
+                H.snapshot(self.at)
+                return handle0(conn, f, cmd)
+            self.console._handle = handle
 
     def conn(self):
         """This client's open connection (None while down)."""
